@@ -147,9 +147,20 @@ def c08(ctx):
     for a, b in zip(events, ev2):
         a["out2"] = b["out"]
     rejects = judge(ctx, "Trace_C08", events)
+    # sequences (encode, edit, encode again) and hash-envelope helper outputs (incl. caller-supplied raw buckets)
+    seq = gen(ctx, "Gen_C08Seq", cfgtext(invariants=["Emit"]), timeout=600)
+    henv = [c for c in gen(ctx, "Gen_C12", cfgtext(invariants=["Emit"], constants=dict(Spellings=tlaset(["int64"]))), timeout=1200, heap="8g") if c["side"] == "producer"]
+    if ctx.quick():
+        henv = [c for c in henv if c.get("rawP") or c.get("rawU") or c["hp"]["alg"] == -16][:4000]
+    sev = harness(ctx, ["exec", "memflow"], seq + henv)
+    srej = judge(ctx, "Trace_C08Seq", sev)
+    base = len(events)
+    events = events + sev
+    for i, r in srej.items():
+        rejects[base + i] = r
     return report(ctx, events, rejects,
-                  nontrivial=lambda e: e["enc"] == "ok",
-                  key=lambda e: (e["struct"], json.dumps(e["m"], sort_keys=True)),
+                  nontrivial=lambda e: e.get("enc") == "ok" or "steps" in e,
+                  key=lambda e: json.dumps(e["steps"]) if "steps" in e else (e["struct"], json.dumps(e["m"], sort_keys=True)),
                   rule="TLC enumerates multi-entry header buckets (subsets of a pool whose bytewise key order disagrees with insertion order, "
                        "mixed Go integer spellings, nested maps/arrays, countersignature values) and the C13 header grid, embedded in every "
                        "structure; the real encoder runs 6 times in each of 2 processes; TLC judges: bytes identical, equal to the specification's "
@@ -360,7 +371,7 @@ def c11(ctx):
     rejects = judge(ctx, "Trace_C11", events)
     return report(ctx, events, rejects,
                   nontrivial=lambda e: e["n"] > 0,
-                  key=lambda e: json.dumps([e["flow"], e["n"], e.get("dec"), e.get("vl"), e.get("c"), e.get("hole")]),
+                  key=lambda e: json.dumps([e["flow"], e["n"], e.get("dec"), e.get("vl"), e.get("c"), e.get("hole"), e.get("j"), e.get("what")]),
                   rule="TLC enumerates COSE_Sign programs: n = 0..N signers of three algorithm families, signing, serialisation, optional wire round trip, "
                        "every subset of slots corrupted (garbage / emptied / overwritten with another slot's signature), verification with every permutation "
                        "class of verifiers and counts n-1, n, n+1; wire images with zero or empty signatures; symbolic signers/verifiers record every call; TLC "
@@ -386,16 +397,38 @@ def c10(ctx):
                   exhaustive=True)
 
 
+def sessions(ctx, cases, size=150):
+    """history independence: the same cases run again in sessions (one world, one verifier value per description, the library's
+    process state shared), in the given order; every case yields an event of its own that the same judge must accept"""
+    if not hasattr(ctx, "packs"):
+        ctx.packs = []
+    base = len(ctx.packs)
+    packs = [dict(session=cases[i:i + size]) for i in range(0, len(cases), size)]
+    ctx.packs.extend(packs)
+    out = []
+    for k, ev in enumerate(harness(ctx, ["exec", "memflow-session"], packs)):
+        for pos, e in enumerate(ev["events"]):
+            e["sess"] = [base + k, pos]
+            out.append(e)
+    return out
+
+
 # ----------------------------------------------------------------------------- C12
 @prop("C12")
 def c12(ctx):
     spell = ["int64", "int", "uint16"] if ctx.quick() else ["int64", "int", "int16", "int32", "uint", "uint16", "uint32", "uint64"]
     cases = gen(ctx, "Gen_C12", cfgtext(invariants=["Emit"], constants=dict(Spellings=tlaset(spell))), timeout=3000, heap="8g")
     events = harness(ctx, ["exec", "memflow"], cases)
+    # the verdict on an envelope must not depend on what was verified before (same verifier, same process): the consumer grid again,
+    # grouped by signed content, accepted variants first; and in the opposite order
+    cons = [c for c in cases if c["side"] == "consumer"]
+    cons.sort(key=lambda c: (json.dumps(c["P"]), c["n"], len(c["U"]), json.dumps(c["U"])))
+    for order in (cons, cons[::-1]):
+        events.extend(sessions(ctx, order))
     rejects = judge(ctx, "Trace_C12", events)
     return report(ctx, events, rejects,
                   nontrivial=lambda e: e["obs"][0]["res"] == "ok" if e["side"] == "producer" else e["obs"][2]["res"] == "ok",
-                  key=lambda e: json.dumps([e["side"], e["P"], e["U"], e.get("rawP"), e.get("rawU"), e.get("hp"), e.get("n")]),
+                  key=lambda e: json.dumps([e["side"], e["P"], e["U"], e.get("rawP"), e.get("rawU"), e.get("hp"), e.get("n")]),   # a session re-run is the same case
                   rule="TLC enumerates the producer grid (base header entries 1/3/4/99/258/259/260/\"x\" in either bucket under several Go spellings, caller-supplied "
                        "raw buckets, hash algorithms SHA-256/384/512 and unknown ids, digest lengths 0/size-1/size/size+1, preimage content type absent/uint/tstr/"
                        "wrongly typed, location) and the consumer grid (validly signed COSE_Sign1 with every combination of governed labels, value types and "
@@ -680,12 +713,22 @@ def replay(ctx, path):
     op, module, extra = REPLAY[pid]
     if op is None:
         op = ev["op"]                      # C16 / C17 / C18 events name their executor
+    if pid == "C08" and "steps" in ev:
+        op, module = "memflow", "Trace_C08Seq"
+    if "session" in doc:
+        events = harness(ctx, ["exec", "memflow-session"], [dict(session=doc["session"])])[0]["events"][-1:]
+        rejects = judge(ctx, module, events, extra_cfg=extra)
+        if rejects:
+            print("VIOLATION property=%s replay=%s reason=%s" % (pid, path, ",".join(rejects[0])))
+            return 1
+        print("replay: not reproduced on the current tree (%s)" % path)
+        return 0
     if op == "racestress":
         events = race_run(ctx, [dict(ops=ev["ops"], decoded=ev["decoded"], workers=ev["workers"], iters=ev["iters"])])
     else:
         serial = dict(VERIF_SERIAL="1") if op in ("conc", "memflow") else None
         events = harness(ctx, ["exec", op], [ev], env=serial)
-        if pid == "C08":
+        if pid == "C08" and op == "hdrgrid":
             events[0]["out2"] = harness(ctx, ["exec", op], [ev])[0]["out"]
         if pid == "C01":
             events = [dict(flow=e["flow"], kind=e["kind"], alg=e["alg"], kk=e["kk"], h=e["h"], n=e["n"], obs=[dict(op=o["op"], res=o["res"]) for o in e["obs"]]) for e in events]
